@@ -1,1 +1,119 @@
-/-! # C19 — property theorems (stub: not built yet) -/
+import PymocaVerif.Lemmas.CacheMeta
+/-!
+# C19 — cached and code-generated models equal fresh compiles
+
+Theorems over `Model/CacheMeta.lean` (`save_model` → pickle → `load_model`), for every list
+of variables of any shapes, every attribute being a plain Python value, an `MX` depending on
+the parameters, or an `MX` that does not.  What is trusted and only exercised by the per-run
+correspondence: pickle, CasADi function serialisation, `ca.external` on the compiled shared
+libraries, and CasADi's dependency test (`AttrWF`: an attribute classified
+`MX_INDEPENDENT` has the same value at every parameter vector, also at NaN).
+-/
+namespace PymocaVerif.CacheMeta
+
+variable {P E V : Type} [Inhabited V]
+
+/-- Round trip of one category: the loaded variables are the saved ones — same number, same
+    order, same names, shapes, Python types and aliases — and every attribute is the
+    original Python value, or an `MX` whose element values at every parameter vector are the
+    original's (a scalar `MX` attribute of an array variable comes back repeated per element). -/
+theorem roundtrip (nA : Nat) (embed : P → List V) (nanEnv : E) (vars : List (Var P E V)) :
+    All2 (Matches nA nanEnv) vars (loadCat nanEnv (saveCat nA embed vars)) :=
+  loadVars_matches nA embed nanEnv _ vars 0 (fun _ => []) (fun _ => rfl) (fun _ => rfl)
+
+/-- Attribute values: variable `i`, attribute `j`, any parameter vector `e` (needs the row
+    bookkeeping `loadVars_matches`: earlier array variables shift the rows). -/
+theorem attr_roundtrip (nA : Nat) (embed : P → List V) (nanEnv : E) (vars : List (Var P E V))
+    (i : Nat) (hi : i < vars.length) (j : Nat) (hj : j < nA) (dep : Bool) (f : E → List V)
+    (hattr : vars[i].attrs j = .mx dep f) (hwf : AttrWF nanEnv (vars[i].attrs j)) :
+    ∃ (h : i < (loadCat nanEnv (saveCat nA embed vars)).length) (g : E → List V),
+      ((loadCat nanEnv (saveCat nA embed vars))[i]).attrs j = .mx g ∧
+      ∀ e, g e = broadcast vars[i].numel (f e) := by
+  have hall := roundtrip nA embed nanEnv vars
+  have hlen := hall.length_eq
+  have hm := (hall.get i hi (hlen ▸ hi)).attrs j hj
+  rw [hattr] at hm hwf
+  obtain ⟨g, hg, hval⟩ := hm
+  refine ⟨hlen ▸ hi, g, hg, fun e => hval e ?_⟩
+  intro hd
+  subst hd
+  exact hwf e
+
+/-- Plain Python attribute values come back unchanged. -/
+theorem py_attr_roundtrip (nA : Nat) (embed : P → List V) (nanEnv : E) (vars : List (Var P E V))
+    (i : Nat) (hi : i < vars.length) (j : Nat) (hj : j < nA) (p : P)
+    (hattr : vars[i].attrs j = .py p) :
+    ∃ (h : i < (loadCat nanEnv (saveCat nA embed vars)).length),
+      ((loadCat nanEnv (saveCat nA embed vars))[i]).attrs j = .py (some p) := by
+  have hall := roundtrip nA embed nanEnv vars
+  have hlen := hall.length_eq
+  have hm := (hall.get i hi (hlen ▸ hi)).attrs j hj
+  rw [hattr] at hm
+  exact ⟨hlen ▸ hi, hm⟩
+
+/-- Row bookkeeping made explicit: the rows read for variable `i` start at the sum of the
+    element counts of the variables before it (not at `i`). -/
+theorem row_offset_is_prefix_sum (nA : Nat) (embed : P → List V) (nanEnv : E) (vars : List (Var P E V)) :
+    (loadCat nanEnv (saveCat nA embed vars)).map (·.row0)
+      = (List.range vars.length).map (fun i => ((vars.take i).map Var.numel).sum) := by
+  have h := loadVars_row0 nanEnv (metaOf nA embed vars) (vars.map toDict)
+    (vars.map (fun v j => classify (v.attrs j))) 0 (by simp)
+  simp only [loadCat, saveCat]
+  rw [h]
+  simp only [List.length_map, Nat.zero_add]
+  apply List.map_congr_left
+  intro i _
+  rw [← List.map_take, List.map_map]
+  rfl
+
+/-- Whole model: every category round-trips, and everything else (`der_states`, `outputs`,
+    `delay_states`, `alias_relation`, string variables, the four functions) is returned as
+    stored. -/
+theorem model_roundtrip {X : Type} (nA : Nat) (embed : P → List V) (nanEnv : E) (m : Fresh P E V X) :
+    (load nanEnv (save nA embed m)).payload = m.payload ∧
+    All2 (fun vars lvars => All2 (Matches nA nanEnv) vars lvars) m.cats
+      (load nanEnv (save nA embed m)).cats := by
+  refine ⟨rfl, ?_⟩
+  simp only [load, save, List.map_map]
+  induction m.cats with
+  | nil => exact All2.nil
+  | cons c rest ih => exact All2.cons (roundtrip nA embed nanEnv c) ih
+
+omit [Inhabited V] in
+/-- Delay durations: whatever subset of symbols the loader's loop keeps symbolic (it reuses
+    `actual_deps`, so later durations can keep more than they need), every loaded duration
+    has the value of the stored one at every point, provided the stored dependency lists are
+    right (`DependsOnly`, CasADi's `depends_on`). -/
+theorem duration_roundtrip (nan : V) (raw : List ((Nat → V) → V)) (dds : List (List Nat))
+    (hdep : All2 DependsOnly raw dds) :
+    All2 (fun f g => ∀ env, g env = f env) raw (loadDurations nan raw dds) := by
+  rw [loadDurations_eq]
+  exact zipMask_ok nan raw dds _ hdep (maskSets_sound (unionOf dds) dds _ (mem_unionOf dds))
+
+section examples
+/-- `Real v[2](each min = p); Real y(min = q, max = 2*q); Real z(max = p + q)` — the shape of
+    DESIGN §6 row 17: an array variable in front of scalars with parameter-dependent bounds.
+    Environments are `(p, q)`; attribute 1 = min, 2 = max. -/
+def exVars : List (Var Int (Int × Int) Int) :=
+  [ { name := "v", rows := 2, cols := 1, pyType := "float", aliases := [],
+      attrs := fun j => if j = 1 then .mx true (fun e => [e.1]) else .py 0 },
+    { name := "y", rows := 1, cols := 1, pyType := "float", aliases := ["w"],
+      attrs := fun j => if j = 1 then .mx true (fun e => [e.2]) else if j = 2 then .mx true (fun e => [2 * e.2]) else .py 0 },
+    { name := "z", rows := 1, cols := 1, pyType := "float", aliases := [],
+      attrs := fun j => if j = 2 then .mx true (fun e => [e.1 + e.2]) else if j = 3 then .mx false (fun _ => [7]) else .py 0 } ]
+
+def showAttr (e : Int × Int) : LAttr Int (Int × Int) Int → List Int
+  | .py _ => [] | .mx g => g e
+
+-- the hypotheses are satisfiable and the statement is not vacuous: at (p, q) = (10, 100)
+example : (loadCat (0, 0) (saveCat 6 (fun p => [p]) exVars)).map (fun lv => (lv.name, lv.row0, showAttr (10, 100) (lv.attrs 1), showAttr (10, 100) (lv.attrs 2)))
+    = [("v", 0, [10, 10], []), ("y", 2, [100], [200]), ("z", 3, [], [110])] := by decide
+example : AttrWF ((0, 0) : Int × Int) (exVars[2].attrs 3) := by intro e; rfl
+-- durations: three delays depending on {5}, {6}, {5, 6}: the second keeps a false dependency
+example : maskSets (unionOf [[5], [6], [5, 6]]) (unionOf [[5], [6], [5, 6]]).length [[5], [6], [5, 6]]
+    = [some [5], some [5, 6], some [5, 6]] := by decide
+example : All2 (DependsOnly (V := Int)) [fun env => env 5, fun env => env 6 + 1] [[5], [6]] :=
+  All2.cons (fun _ _ h => h 5 (by simp)) (All2.cons (fun _ _ h => by simp [h 6 (by simp)]) All2.nil)
+end examples
+
+end PymocaVerif.CacheMeta
